@@ -52,6 +52,38 @@ def merge_rule(ck, P):
         return
     oh = other[0]["hid"]
 
+    # the structured parts: bounds are extended (or taken over), a present center wins, minzoom = min, maxzoom = max, vector layers merged
+    def other_rooted(e):
+        return any(z.get("k") == "path" and z.get("r") == "local" and z.get("hid") == oh for z in ir.walk_nodes(e))
+    ab = [y for y in ir.walk_nodes(b["body"]) if y.get("k") == "assign" and ir.place_str(y["l"]) == "self.bounds"]
+    okb = len(ab) == 1 and ir.contains(ab[0]["r"], lambda z: z.get("k") == "mcall" and z.get("name") in ("extended", "extend"))
+    if okb:
+        for n, parents, _ in ir.walk(b["body"]):
+            if n is ab[0]:
+                guard = [p_ for p_ in parents if p_.get("k") == "if"]
+                okb = bool(guard) and ir.unparen(guard[-1]["c"]).get("k") == "letx" and other_rooted(ir.unparen(guard[-1]["c"])["init"]) and ir.contains(guard[-1]["then"], lambda z: z is n)
+    ac = [y for y in ir.walk_nodes(b["body"]) if y.get("k") == "assign" and ir.place_str(y["l"]) == "self.center"]
+    okc = len(ac) == 1 and other_rooted(ac[0]["r"])
+    if okc:
+        from . import census
+        fs = [f for n_, f_ in census.nodes_with_facts(ir.fn_block(b), lambda y: y is ac[0]) for f in f_]
+        okc = any((f[0] == "pred" and f[2] == "is_some" and f[4] is True and f[1].endswith(".center")) or (f[0] == "letpat" and f[1].endswith(".center")) for f in fs)
+    zz = {}
+    for y in ir.walk_nodes(b["body"]):
+        if y.get("k") == "mcall" and y.get("name") in ("min", "max") and len(y.get("a", ())) == 1:
+            for n, parents, _ in ir.walk(b["body"]):
+                if n is y:
+                    gl = [p_ for p_ in parents if p_.get("k") == "if" and ir.unparen(p_["c"]).get("k") == "letx"]
+                    key = next((ir.const_eval_str(z) for g_ in gl[-1:] for z in ir.walk_nodes(ir.unparen(g_["c"])["init"]) if z.get("k") == "lit"), None)
+                    if key:
+                        zz[key] = y["name"]
+    ins = {ir.const_eval_str(y["a"][0]) for y in ir.walk_nodes(b["body"]) if y.get("k") == "mcall" and (ir.callee(y) or "").endswith("TileJsonValues::insert") and y.get("a") and ir.const_eval_str(y["a"][0])}
+    vl = [y for y in ir.walk_nodes(b["body"]) if y.get("k") == "mcall" and (ir.callee(y) or "").endswith("VectorLayers::merge") and y.get("a") and other_rooted(y["a"][0])]
+    from . import mvt as _mvt
+    vcount = _mvt.exit_counts(P, b, lambda y: 1 if (y.get("k") == "mcall" and (ir.callee(y) or "").endswith("VectorLayers::merge")) else None)
+    ck.check(okb and okc and zz == {"minzoom": "min", "maxzoom": "max"} and {"minzoom", "maxzoom"} <= ins and len(vl) == 1 and vcount == {1}, "R-MERGE", "merge|structured",
+             "bounds extended by other's, other's center wins when present, minzoom = min / maxzoom = max of both (stored back), vector layers merged on every path",
+             "structured parts of merge: bounds ok=%s, center ok=%s, zoom combinators %s stored %s, vector layer merges %s" % (okb, okc, zz, sorted(ins), sorted(vcount)), ir.loc(b))
     # functions through which the pass-through values travel: merge itself and the TileJsonValues methods it calls (transitively)
     def values_callees(body, depth=0):
         out = []
@@ -94,6 +126,22 @@ def merge_rule(ck, P):
         if y.get("k") == "if":
             lits = [ir.const_eval_str(z) for z in ir.walk_nodes(y["c"]) if z.get("k") == "lit" and z.get("lk") == "str"]
             lits = [v for v in lits if v]
+            if lits:
+                # polarity: the store sits in the branch where the key DIFFERS from every listed literal
+                conj = []
+
+                def split_(c):
+                    c = ir.unparen(c)
+                    if c.get("k") == "bin" and c.get("op") == "&&":
+                        split_(c["l"])
+                        split_(c["r"])
+                    else:
+                        conj.append(c)
+                split_(y["c"])
+                all_ne = all(ir.unparen(c).get("k") == "bin" and ir.unparen(c).get("op") == "!=" for c in conj) and len(conj) == len(lits)
+                store_in_then = ir.contains(y["then"], lambda z: z.get("k") == "mcall" and (z.get("name") in ("insert",) or (ir.callee(z) or "").endswith("TileJsonValues::insert")))
+                if not (all_ne and store_in_then):
+                    odd.append("%s (keys are copied when they EQUAL a listed key, or the condition is not `k != a && k != b`)" % ir.loc(y))
             if not lits:
                 # a helper that takes the keys to skip as a parameter: the literals are at its call site (collected below)
                 fph = {x["hid"] for p_ in f["params"] for x in ir.pat_binds(p_) if x["name"] != "self" and "TileJsonValues" not in x["t"]}
